@@ -381,6 +381,72 @@ def arm_bounded(fx, name, span):
                 return True
             except (KeyError, Over):
                 return False
+
+    # not inside a pinning arm: the variable operands may still be locals that only ever hold finitely many values - every
+    # assignment to them is a literal, a copy of such a local, or an expression inside an arm that pins its variable
+    def pinned_env(ps_):
+        for i in range(len(ps_) - 1, -1, -1):
+            anc, key = ps_[i]
+            if isinstance(anc, dict) and "pat" in anc and "body" in anc and i > 0 and isinstance(ps_[i - 1][0], dict) and ps_[i - 1][0].get("k") == "Match":
+                m = ps_[i - 1][0]
+                sl = F.local_of(F.strip(m["scrut"]))
+                if sl is None:
+                    sc = F.strip(m["scrut"])
+                    if sc.get("k") == "Unary" and sc.get("op") == "Deref":
+                        sl = F.local_of(F.strip(sc["e"]))
+                vals = _pat_values(anc["pat"], fx)
+                if sl is not None and vals is not None and anc.get("guard") is None:
+                    return sl, vals
+        return None
+
+    def value_set(lid, depth=0):
+        if depth > 3:
+            return None
+        out = set()
+        found = False
+        for x, ps in F.walk(root):
+            rhs = None
+            if x.get("s") == "Let" and "init" in x and x["pat"].get("p") == "Bind" and x["pat"].get("local") == lid:
+                rhs = x["init"]
+            elif x.get("k") == "Assign" and F.local_of(F.strip(x["l"])) == lid:
+                rhs = x["r"]
+            elif x.get("k") == "AssignOp" and F.local_of(F.strip(x["l"])) == lid:
+                return None
+            if rhs is None:
+                continue
+            found = True
+            r = F.strip(rhs)
+            try:
+                out.add(ev(r, {}))
+                continue
+            except (KeyError, Over):
+                pass
+            if r.get("k") == "Path" and r.get("res") == "local":
+                sub = value_set(r["local"], depth + 1)
+                if sub is None:
+                    return None
+                out |= sub
+                continue
+            pe = pinned_env(ps)
+            if pe is None:
+                return None
+            try:
+                for v in pe[1]:
+                    out.add(ev(r, {pe[0]: v}))
+            except (KeyError, Over):
+                return None
+        return out if found and len(out) <= 4096 else None
+
+    operands = sorted({x["local"] for x, _ in F.walk(node) if x.get("k") == "Path" and x.get("res") == "local"})
+    if len(operands) == 1:
+        vs = value_set(operands[0])
+        if vs:
+            try:
+                for v in vs:
+                    ev(node, {operands[0]: v})
+                return True
+            except (KeyError, Over):
+                return False
     return False
 
 
@@ -458,12 +524,31 @@ def verify_seen_cut(fx, cg, comp):
             if len(cont) == 1:
                 guard = (n, cont[0], [c for c in conj if c is not cont[0]])
                 break
+            # `let seen_before = !seen.insert(x.clone()); if seen_before && .. { return }`: insert answers whether the item was new
+            for c in conj:
+                lid = F.local_of(F.strip(c))
+                if lid is None:
+                    continue
+                init = None
+                for m_, _ in F.walk(root):
+                    if m_.get("s") == "Let" and "init" in m_ and m_["pat"].get("p") == "Bind" and m_["pat"].get("local") == lid:
+                        init = F.strip(m_["init"])
+                if init is not None and init.get("k") == "Unary" and init.get("op") == "Not":
+                    ins = F.strip(init["e"])
+                    if ins.get("k") == "MethodCall" and ins.get("method") == "insert" and "HashSet" in (F.callee(ins) or "") and ins.get("args"):
+                        arg = F.strip(ins["args"][0])
+                        while arg.get("k") == "MethodCall" and arg.get("method") in ("clone", "to_owned") and not arg.get("args"):
+                            arg = F.strip(arg["recv"])
+                        guard = (n, {"args": [arg], "recv": ins["recv"], "insert_is_the_test": True}, [c2 for c2 in conj if c2 is not c])
+                        break
+            if guard is not None:
+                break
         if guard is None:
             continue
         n, cont, rest = guard
         x = F.local_of(F.strip(cont["args"][0]))
         seen = F.local_of(F.strip(cont["recv"]))
-        inserted = any(
+        inserted = cont.get("insert_is_the_test") or any(
             c.get("k") == "MethodCall" and c.get("method") == "insert" and F.local_of(F.strip(c["recv"])) == seen and F.local_of(F.strip(c["args"][0])) == x
             for c, _ in F.walk(root)
         )
